@@ -328,7 +328,7 @@ def c01():
             small_schema = p.key.startswith("hist:")
             big = [(66000, [66000], 100000), (66000, [40000, 26000], 1000)]
             if not q and small_schema:
-                big += [(1200000, [1200000], 2000000), (300000, [100000, 200000], 70000)]
+                big += [(300000, [300000], 2000000), (150000, [50000, 100000], 70000)]
             for n, batches, page in big:
                 if p.key == "fixed:AllTypes" and q and page == 1000:
                     continue
@@ -351,7 +351,7 @@ def c01():
                       "concretised from adversarial value pools (min/max ints, +-0, +-Inf, NaN payloads, empty/long/non-UTF8/sentinel strings), "
                       "half of the cases mutate the record after Add, every case is read twice (plain, and re-checking every scanned record after "
                       "each later Scan); plus seeded random workloads up to 3000 records, lists up to 300, 70 kB strings, files with 300 (700) row groups / 300 (700) pages per chunk, and bulk "
-                      "workloads of 66 000 (1 200 000) index-generated records in one page / several pages (compared in Go, judged as one event); non-trivial = more than "
+                      "workloads of 66 000 (300 000) index-generated records in one page / several pages (compared in Go, judged as one event); non-trivial = more than "
                       "one batch or more than one page; distinct by (schema, split, page size, codec)" % nmax)
     ck.cov["exhaustive"] = False
     run_programs(ok, "c01", timeout=1800)
